@@ -2,6 +2,7 @@ package main
 
 import (
 	"fmt"
+	"go/token"
 	"go/types"
 	"sort"
 	"strings"
@@ -638,12 +639,49 @@ func ruleOneConfigValue(c *Ctx) {
 	}, []Ev{okLoad, exists}, all, "sections are replaced only by a successfully loaded, existing stored configuration")
 }
 
+// ruleReloadMigration: Reload runs MigrateDeprecatedFlags on the loaded value.
+// For a value written by this version (deprecated flags absent = false) the
+// migration must be the identity, or an accepted change would read differently
+// after the next election: a current flag (element 1 of a migration pair) is
+// written only on the edge where its deprecated twin (element 0) was set.
+func ruleReloadMigration(c *Ctx) {
+	P := c.P
+	rule := c.Prop + "/reload-identity"
+	fn := P.Method("server/config", "ScheduleConfig", "MigrateDeprecatedFlags")
+	c.saw(fnName(fn))
+	// *(&pair[k]) : the pointer stored in element k of a [2]*bool
+	elemPtr := func(v ssa.Value, k int64) bool {
+		u, ok := v.(*ssa.UnOp)
+		if !ok || u.Op != token.MUL {
+			return false
+		}
+		ia, ok := u.X.(*ssa.IndexAddr)
+		if !ok {
+			return false
+		}
+		idx, isC := constInt(ia.Index)
+		return isC && idx == k
+	}
+	oldSet := &guardEv{name: "the deprecated flag of the pair was set", match: func(cond ssa.Value, pos bool) bool {
+		u, ok := cond.(*ssa.UnOp)
+		return ok && pos && u.Op == token.MUL && elemPtr(u.X, 0)
+	}}
+	n := c.mustPrecede(rule, fn, "write of the current flag of a migration pair", func(x ssa.Instruction) bool {
+		st, ok := x.(*ssa.Store)
+		return ok && elemPtr(st.Addr, 1)
+	}, []Ev{oldSet}, all, "the current flag changes only when its deprecated twin was set (data written by this version reloads unchanged)")
+	if n == 0 {
+		c.Undec(rule, "writes of current flags in "+fnName(fn), "at least one", P.pos(fn.Pos()), "")
+	}
+}
+
 func init() {
 	register("C18", "Dynamic configuration changes are validated, atomic and durable", func(c *Ctx) {
 		c.Group("C18/validated-first", "each setter validates its parameter before it changes the served options", func() { ruleValidatedBeforePublished(c) })
 		c.Group("C18/domain", "domain checks: ratios, registered scheduler types (every entry), isolation level ∈ location labels, non-negative flow digit", func() { ruleDomainAtoms(c) })
 		c.Group("C18/snapshot-rollback", "every function that mutates the served options, persists and returns the error restores each mutated section from a snapshot taken before the first mutation", func() { ruleSnapshotRollback(c) })
 		c.Group("C18/served-config-not-shared", "configuration objects handed to API code are clones", func() { ruleServedConfigNotShared(c) })
+		c.Group("C18/reload-identity", "the reload-time migration of deprecated flags leaves values written by this version unchanged", func() { ruleReloadMigration(c) })
 		c.Group("C18/one-json-value", "one key, one JSON value containing every section; reload installs every section of an existing value", func() { ruleOneConfigValue(c) })
 	})
 }
